@@ -185,7 +185,17 @@ ProtSingles == UNION {{[level |-> "protect", key |-> k, val |-> val,
                  top |-> Mp([c1 |-> Mp(SetKey(BaseConn, "protect", Lst(<<Mp(SetKey(BaseProtect.v, k, val))>>)))])] : val \in ProtValues(k)} : k \in ProtKeys}
 TopCases == {[level |-> "top", key |-> "-", val |-> x, top |-> x] : x \in {Lst(<<>>), Null, S("x"), I(3), Mp(<<>>), Mp([c1 |-> Lst(<<>>)]), Mp([c1 |-> S("x")]), Mp([c1 |-> Null])}}
              \cup {[level |-> "top", key |-> "two", val |-> Null, top |-> Mp([c1 |-> Mp(BaseConn), c2 |-> Mp(SetKey(BaseConn, "peer_addr", S("10.9.9.9")))])]}
-Cases == ConnSingles \cup ProtSingles \cup TopCases \cup {[level |-> "base", key |-> "-", val |-> Null, top |-> Mp([c1 |-> Mp(BaseConn)])]}
+\* every entry is loaded on its own: what an entry (or a connection) means does not depend on what was loaded before it.  Ordered pairs of
+\* protect entries - AH / ESP, default and explicit algorithm lists, the same list and the reversed one - in one connection and across two
+ProtVariants == { Mp([ipsec_proto |-> S("ah")]), Mp([ipsec_proto |-> S("ah"), encr |-> Lst(Strs(<<"aes128", "aes256">>)), integ |-> Lst(Strs(<<"sha1">>))]),
+                  Mp(<<>>), Mp([encr |-> Lst(Strs(<<"aes128", "aes256">>))]), Mp([encr |-> Lst(Strs(<<"aes256", "aes128">>)), integ |-> Lst(Strs(<<"sha1">>))]),
+                  Mp([ipsec_proto |-> S("esp"), dh |-> Lst(<<I(14)>>), mode |-> S("transport"), ip_proto |-> S("udp"), my_port |-> I(23), lifetime |-> I(0)]) }
+WithIdx(p, n) == Mp(SetKey(p.v, "index", I(n)))
+Conn2(prot) == Mp([my_addr |-> S("192.168.0.1"), peer_addr |-> S("10.9.9.9"), my_auth |-> BaseAuthMy, peer_auth |-> BaseAuthPeer, protect |-> Lst(prot)])
+MultiCases == {[level |-> "multi", key |-> "pair", val |-> Null, top |-> Mp([c1 |-> Mp(SetKey(BaseConn, "protect", Lst(<<WithIdx(p, 11), WithIdx(q, 12)>>)))])] : p, q \in ProtVariants}
+              \cup {[level |-> "multi", key |-> "two-connections", val |-> Null,
+                     top |-> Mp([c1 |-> Mp(SetKey(BaseConn, "protect", Lst(<<WithIdx(p, 11)>>))), c2 |-> Conn2(<<WithIdx(q, 12), WithIdx(p, 13)>>)])] : p, q \in ProtVariants}
+Cases == ConnSingles \cup ProtSingles \cup TopCases \cup MultiCases \cup {[level |-> "base", key |-> "-", val |-> Null, top |-> Mp([c1 |-> Mp(BaseConn)])]}
 
 \* Load is total and three-valued on the whole universe; the base dictionary loads
 ASSUME \A c \in Cases : Load(c.top).c \in {"ok", "err", "either"}
